@@ -160,6 +160,34 @@ func (a *Act) staticCall(res ssa.Value, instr ssa.Instruction, fn *ssa.Function,
 	if a.ghostCall(res, instr, fn, args, st, reach) {
 		return
 	}
+	if sf := eng.specBySSA(fn); sf != nil && eng.inRepo(fn) && res != nil {
+		if ct := eng.contractFor(fn); ct != nil && !ct.Inline {
+			// a recursive call inside the specification function under verification: handled through its contract (the
+			// induction hypothesis); the value returned is the function's value at these arguments (the function symbol is
+			// defined by this very recursion, whose termination is an obligation)
+			pre := st.clone()
+			a.callByContract(res, instr, fn, ct, args, st, reach)
+			if _, isTuple := res.Type().(*types.Tuple); !isTuple && !isSpecSeqType(res.Type()) {
+				g.useSpec(sf)
+				sig := fn.Signature
+				var as []string
+				for i, x := range args {
+					pt := sig.Params().At(i).Type()
+					if isSpecSeqType(pt) {
+						x = fmt.Sprintf("(qofarr (select %s (sref %s)) (soff %s) (sllen %s))", pre.H["Q"], x, x, x)
+					}
+					if isSpecMapType(pt) {
+						x = fmt.Sprintf("(mkSMap (select %s %s) (select %s %s))", pre.H["MD"], x, pre.H["MQ"], x)
+					}
+					as = append(as, x)
+				}
+				if len(as) > 0 {
+					g.assumeIf(reach, fmt.Sprintf("(= %s (%s %s))", a.env[res], sf.smtName, strings.Join(as, " ")))
+				}
+			}
+			return
+		}
+	}
 	if h, ok := externs[name]; ok && h(a, res, instr, args, st, reach) {
 		return
 	}
@@ -404,6 +432,11 @@ func (a *Act) callByContract(res ssa.Value, instr ssa.Instruction, fn *ssa.Funct
 	}
 	cs.res = rs
 	for _, cl := range ct.Ensures {
+		if strings.HasPrefix(cl.Label, "local-") {
+			// proved at the function's returns, not handed to callers (quantifier shapes that would loop with the
+			// caller's other facts; callers get the consequences stated in the other clauses)
+			continue
+		}
 		for _, c := range cs.evalClause(cl, st, cs.pre) {
 			g.assumeIf(reach, c)
 		}
@@ -806,6 +839,23 @@ func (a *Act) appendOp(res ssa.Value, instr ssa.Instruction, c *ssa.CallCommon, 
 	}
 	if res != nil {
 		a.bind(res, fmt.Sprintf("(ite %s (mkSlice (sref %s) (soff %s) %s (scap %s)) (ite %s %s (mkSlice %s 0 %s %s)))", inplace, s, s, total, s, keep, s, ref, total, newcap))
+		// append(s, x1..xn) with n known: state where the new elements are (a consequence of the copy axioms; it puts the
+		// terms result[len(s)+j] into the solver's term set so that quantified invariants over the elements fire on them)
+		if sl, ok := c.Args[1].(*ssa.Slice); ok && stride == 1 && !isStr {
+			if al, ok := sl.X.(*ssa.Alloc); ok {
+				if at, ok := al.Type().Underlying().(*types.Pointer).Elem().Underlying().(*types.Array); ok && at.Len() <= 4 && sl.Low == nil && sl.High == nil {
+					r := a.env[res]
+					for k := range kinds {
+						if !kinds[k] || elemKind(k) != k {
+							continue
+						}
+						for j := int64(0); j < at.Len(); j++ {
+							g.assumeIf(reach, fmt.Sprintf("(= (select (select %s (sref %s)) (+ (soff %s) (sllen %s) %d)) (select (select %s (sref %s)) (+ (soff %s) %d)))", st.H[k], r, r, s, j, pre.H[k], t, t, j))
+						}
+					}
+				}
+			}
+		}
 	}
 }
 
@@ -839,6 +889,17 @@ func (a *Act) nextOp(in *ssa.Next, st *State, reach string) {
 	}
 	// an enumerated key is in the domain; nothing is known about the order (DESIGN 4.5)
 	g.assumeIf(reach, fmt.Sprintf("(=> %s (and (not (= %s 0)) %s))", ok, m, sel(st.H["MD"], m, a.mapKey(mt.Key(), key))))
+	// ... it has not been enumerated before, and the enumeration ends only when every key has been (Go: each entry is
+	// produced once as long as the map is not modified during the loop; the set of visited keys is the ghost iterator's row)
+	if it, bound := a.env[rng]; bound && it != "RANGE" && !a.mapWrittenInLoop(in) {
+		k := a.mapKey(mt.Key(), key)
+		g.assumeIf(reach, fmt.Sprintf("(=> %s (not %s))", ok, sel(st.H["MD"], it, k)))
+		kv := g.sortOf(mt.Key())
+		ks := "Int"
+		_ = kv
+		g.assumeIf(reach, fmt.Sprintf("(=> (not %s) (forall ((k %s)) (! (=> (select (select %s %s) k) (select (select %s %s) k)) :pattern ((select (select %s %s) k)) :pattern ((select (select %s %s) k)))))", ok, ks, st.H["MD"], m, st.H["MD"], it, st.H["MD"], m, st.H["MD"], it))
+		st.H["MD"] = g.def("HMD", heapSort["MD"], fmt.Sprintf("(ite %s %s %s)", ok, sto(st.H["MD"], it, k, "true"), st.H["MD"]))
+	}
 	_ = kt
 	_ = vt
 	a.setTuple(in, []string{ok, key, v})
@@ -888,4 +949,22 @@ func (a *Act) selectOp(in *ssa.Select, st *State, reach string) {
 		vs = append(vs, n)
 	}
 	a.setTuple(in, vs)
+}
+
+// mapWrittenInLoop: the function under execution updates or deletes from some map between two Next operations of this
+// iterator (conservative: anywhere in the function). Then "each key once" is not assumed.
+func (a *Act) mapWrittenInLoop(nx *ssa.Next) bool {
+	for _, b := range a.fn.Blocks {
+		for _, in := range b.Instrs {
+			switch x := in.(type) {
+			case *ssa.MapUpdate:
+				return true
+			case *ssa.Call:
+				if bi, ok := x.Call.Value.(*ssa.Builtin); ok && bi.Name() == "delete" {
+					return true
+				}
+			}
+		}
+	}
+	return false
 }
